@@ -149,8 +149,8 @@ void perturb_a64_operand(Operand_& op, Rng& r, const Labels& ls, const CodeHolde
   }
   else if (op.is_imm()) {
     Imm& i = op.as<Imm>();
-    if (r.chance(3, 4)) i.set_value(perturbed_imm(r));
-    if (r.chance(1, i.predicate() != 0 ? 3 : 10)) i.set_predicate(uint32_t(r.chance(2, 3) ? r.below(4) : r.below(16)));   /* mostly another shift type (lsl lsr asr ror) */
+    if (r.chance(1, 2)) i.set_value(perturbed_imm(r));
+    if (r.chance(1, 3)) i.set_predicate(uint32_t(r.chance(2, 3) ? r.below(4) : r.below(16)));   /* mostly another shift type (lsl lsr asr ror) */
   }
   else if (op.is_label()) {
     op = select_label(ls, r.chance(1, 2) ? int64_t(r.below(8)) : -int64_t(1 + r.below(8)), code);
